@@ -200,6 +200,7 @@ def oracle(case, micro, rows):
     """C14 on the implementation trace of one fleet"""
     viol, load, ready_at, clock = [], {}, {}, 0
     prev_ready, seq, full_at, prev, full_items = [], {}, None, None, set()
+    wake, cap_at = 0, None
     for i, (op, r) in enumerate(zip(micro, rows)):
         if op[0] == "IDLE" and full_at is not None and prev is not None:
             # the instant in which the held items reached the capacity is over: everything loaded must have left
@@ -220,9 +221,20 @@ def oracle(case, micro, rows):
                         viol.append((i, "C11: Fleet.%s() = %s but a reservation issued now is %s" % (what, flag, "granted" if granted else "not granted")))
         elif op[0] == "PROBE":
             viol.append((i, "C11: Fleet query raised " + r["res"]))
+        was_out = set(x for x in prev["intransit"].split(",") if x) if prev is not None else set()
         prev = r
         clock = int(r["clock"]) if r["clock"] != "" else clock
+        gone = set(x for x in r["intransit"].split(",") if x) - was_out
+        if gone and case["fdelay"] > 0:
+            # a departure: the held items reached the capacity in this instant, or the waiting delay, which runs
+            # from the activation process's last wake-up (start of the run, last departure), has just expired
+            if cap_at != clock and not (clock > wake and (clock - wake) % case["fdelay"] == 0):
+                viol.append((i, "items %s departed at %d: the fleet held fewer than %d items and its waiting delay %d, running since %d, had not expired" %
+                             (",".join(sorted(gone)), clock, case["cap"], case["fdelay"], wake)))
+            wake = clock
         if op[0] == "LOAD" and r["res"] == "ok":
+            if len([x for x in r["items"].split(",") if x]) + len([x for x in r["ready"].split(",") if x]) >= case["cap"]:
+                cap_at = clock
             load[op[3]] = clock
             seq[op[3]] = len(seq)
             if len([x for x in r["items"].split(",") if x]) + len([x for x in r["ready"].split(",") if x]) >= case["cap"]:
